@@ -114,8 +114,8 @@ Print Assumptions C01_cbor_wire_ok.
    Missing: non-zero times.  Wire/Cbor's byte-level lemma (Wcbor_dec_enc_partial) does not cover tags 0 / 1
    ([lib_supports] excludes tags 0..5): what it lacks is the float / calendar arithmetic
    time_of_float (f64_add ..) and parse_rfc3339 (fmt_rfc3339 ..) returning the microsecond-rounded instant.
-   [leaves_ok] therefore admits only the zero time (written as nil, read back as the zero time).  The
-   interface [wire_ok] and the losses ARE proved for all times at the item level only vacuously.
+   [leaves_ok] therefore admits only the zero time (written as nil, read back as the zero time); the time
+   clause of [wire_ok] is met for that instant only, and [round_us] in cbor_losses is exercised only there.
    Premises: the wire lemma's own (Item.wf: ranges; plain: lengths are 64-bit; lib_supports of the
    encoder's tree: lengths fit an int, map keys hashable and pairwise different, unsigned < 2^63 under
    SignedInteger; tdepth < MaxDepth as the cbor decoder counts it) plus leaves_ok (no float32 signalling
